@@ -313,6 +313,15 @@ Section ValueInd.
     end.
 End ValueInd.
 
+Lemma closed_fn_parts_pure : forall fd, closed_fn fd = true ->
+  forallb (fun p => negb (constant_name p)) (fd_params fd) = true /\ nodup_idents (fd_params fd) = true /\
+  closed_expr (is_self (fd_name fd)) (fd_params fd) (fd_body fd) = true.
+Proof.
+  intros fd H. unfold closed_fn in H. apply andb_prop in H. destruct H as [H H3]. apply andb_prop in H. destruct H as [H1 H2].
+  repeat split; auto. rewrite forallb_forall in *. intros x Hx. apply H1 in Hx.
+  apply andb_prop in Hx. destruct Hx as [Hx _]. apply andb_prop in Hx. tauto.
+Qed.
+
 (* ================================================================ closed bodies: the coincidence lemma *)
 Section Closed.
   Variable defs : list fdef.
@@ -360,16 +369,23 @@ Section Closed.
     inversion HC; subst. destruct (ce_match (ce_key n) (ce_args n) ce); constructor; auto. apply IH; auto.
   Qed.
 
+  Lemma fl_goeq_eq : forall f g, fl_hashable f = true -> fl_hashable g = true -> fl_goeq f g = true -> f = g.
+  Proof.
+    intros f g Hf Hg H. unfold fl_goeq in H.
+    destruct f, g; unfold fl_hashable, fl_num in *; try discriminate; try reflexivity;
+      apply Z.eqb_eq in H;
+      try (apply negb_true_iff in Hf; apply Z.eqb_neq in Hf); try (apply negb_true_iff in Hg; apply Z.eqb_neq in Hg);
+      try (exfalso; lia); f_equal; lia.
+  Qed.
   Lemma value_goeq_eq : forall a b, hashable a = true -> hashable b = true -> value_goeq a b = true -> a = b.
   Proof.
-    induction a using value_ind'; intros b0 Ha Hb HE; destruct b0; simpl in *; try discriminate.
-    - apply Z.eqb_eq in HE. congruence.
-    - destruct f, f0; simpl in *; try discriminate; auto; unfold fl_goeq in HE; simpl in HE; apply Z.eqb_eq in HE;
-        try (f_equal; f_equal; lia); try lia.
-    - apply bytes_eqb_eq in HE. congruence.
-    - apply eqb_prop in HE. congruence.
+    induction a using value_ind'; intros b0 Ha Hb HE; destruct b0; try (simpl in HE; discriminate).
+    - simpl in HE. apply Z.eqb_eq in HE. congruence.
+    - f_equal. apply fl_goeq_eq; auto.
+    - simpl in HE. apply bytes_eqb_eq in HE. congruence.
+    - simpl in HE. apply eqb_prop in HE. congruence.
     - reflexivity.
-    - f_equal. apply andb_prop in Ha. destruct Ha as [_ Ha]. apply andb_prop in Hb. destruct Hb as [_ Hb].
+    - f_equal. simpl in Ha, Hb, HE. apply andb_prop in Ha. destruct Ha as [_ Ha]. apply andb_prop in Hb. destruct Hb as [_ Hb].
       revert l0 Hb HE. induction l as [|x l IHl]; intros [|y m] Hb HE; try discriminate; auto.
       apply andb_prop in Ha. destruct Ha as [A1 A2]. apply andb_prop in Hb. destruct Hb as [B1 B2].
       apply andb_prop in HE. destruct HE as [H1 H2]. inversion H; subst. f_equal; auto.
@@ -451,7 +467,7 @@ Section Closed.
     exists envd. unfold get. rewrite HI, A. destruct (bytes_eqb x self_name) eqn:S; [rewrite B; auto|].
     unfold is_self in HS. rewrite S in HS. simpl in HS.
     assert (O : own_name defs frm x = true).
-    { unfold own_name. rewrite B, Hd. destruct (fd_name fd); auto. discriminate. }
+    { unfold own_name. rewrite B, Hd. destruct (fd_name fd); auto; discriminate. }
     rewrite O, B. auto.
   Qed.
 
@@ -468,9 +484,9 @@ Section Closed.
 
   Definition done_list (fd : fdef) (env : list (ident * value)) (es : list expr) (r : res) (vals : list (value * bool))
              (st st' : state) : Prop :=
-    (exists k, peval_list fd (peval fd k) env es = (r_oc r, map fst vals, r_out r)) /\
+    (exists k, peval_list (peval fd k) env es = (r_oc r, map fst vals, r_out r)) /\
     forallb (fun p => negb (snd p)) vals = true /\ r_log r = [] /\ r_miss r = 0 /\
-    (exists extra, st_heap st' = st_heap st ++ extra) /\ cache_ok (st_cache st').
+    (exists extra, st_heap st' = st_heap st ++ extra) /\ cache_ok (st_cache st') /\ r_ref r = false.
 
   Lemma closed_list : forall f, closed_spec f ->
     forall on d fd es st fr env r vals st',
@@ -492,25 +508,384 @@ Section Closed.
           -- eauto.
         * destruct (eval_list (eval f on defs) st1 fr es) as [[r2 vs] st2] eqn:E2.
           assert (HF1 : frame_ok (st_heap st1) fr d fd env) by (rewrite X1; apply frame_ok_app; auto).
-          destruct (IH _ _ _ _ _ _ Hd HF1 HD C2 K1 E2) as [F2|[[k2 P2] [R2 [L2 [M2 [[x2 X2] K2]]]]]].
+          destruct (IH _ _ _ _ _ _ Hd HF1 HD C2 K1 E2) as [F2|[[k2 P2] [R2 [L2 [M2 [[x2 X2] [K2 RR2]]]]]]].
           { inversion H; subst. left. simpl. auto. }
-          inversion H; subst. right. repeat split; simpl; auto.
-          -- exists (max k1 k2). cbn [peval_list].
-             rewrite (peval_mono fd k1 (max k1 k2) _ _ _ _ P1) by (try discriminate; lia). rewrite EV.
-             destruct (r_oc r2) eqn:O2.
-             ++ rewrite (peval_list_mono_le fd k2 (max k1 k2) _ _ _ _ _ P2) by (try discriminate; lia). auto.
-             ++ rewrite (peval_list_mono_le fd k2 (max k1 k2) _ _ _ _ _ P2) by (try discriminate; lia). auto.
-             ++ (* OFuel of the rest: the pure list run out of fuel at k2; excluded below *)
-                rewrite (peval_list_mono_le fd k2 (max k1 k2) _ _ _ _ _ P2); auto; try lia.
-                (* cannot use mono for OFuel: handled separately *)
-                admit.
-          -- rewrite R1. simpl. auto.
-          -- rewrite L1, L2. auto.
-          -- lia.
-          -- exists (x1 ++ x2). rewrite X2, X1, app_assoc. auto.
+          inversion H; subst.
+          destruct (r_oc r2) eqn:O2; [| |left; simpl; auto].
+          -- right. repeat split; simpl; auto.
+             ++ exists (max k1 k2). cbn [peval_list].
+                rewrite (peval_mono fd k1 (max k1 k2) _ _ _ _ P1) by (try discriminate; lia). rewrite EV.
+                rewrite (peval_list_mono_le fd k2 (max k1 k2) _ _ _ _ _ P2) by (try discriminate; lia). rewrite O2. auto.
+             ++ rewrite R1. simpl. auto.
+             ++ rewrite L1, L2. auto.
+             ++ lia.
+             ++ exists (x1 ++ x2). rewrite X2, X1, app_assoc. auto.
+          -- right. repeat split; simpl; auto.
+             ++ exists (max k1 k2). cbn [peval_list].
+                rewrite (peval_mono fd k1 (max k1 k2) _ _ _ _ P1) by (try discriminate; lia). rewrite EV.
+                rewrite (peval_list_mono_le fd k2 (max k1 k2) _ _ _ _ _ P2) by (try discriminate; lia). rewrite O2. auto.
+             ++ rewrite R1. simpl. auto.
+             ++ rewrite L1, L2. auto.
+             ++ lia.
+             ++ exists (x1 ++ x2). rewrite X2, X1, app_assoc. auto.
       + inversion H; subst. right. repeat split; auto.
         * exists k1. cbn [peval_list]. rewrite P1, O1. auto.
         * eauto.
       + inversion H; subst. rewrite O1. auto.
-  Admitted.
+  Qed.
+
+  Definition call_pure (fd : fdef) (k : nat) (vals : list value) : outcome * bytes :=
+    if negb (Nat.eqb (length vals) (length (fd_params fd))) then (OVal (VErr err_msg), [])
+    else peval fd k (combine (fd_params fd) vals) (fd_body fd).
+
+  Definition done_call (fd : fdef) (vals : list value) (r : res) (st st' : state) : Prop :=
+    (exists k, call_pure fd k vals = (r_oc r, r_out r)) /\ r_ref r = false /\ r_log r = [] /\ r_miss r = 0 /\
+    (exists extra, st_heap st' = st_heap st ++ extra) /\ cache_ok (st_cache st').
+
+  Lemma closed_fn_parts : forall fd, closed_fn fd = true ->
+    forallb (fun p => negb (constant_name p)) (fd_params fd) = true /\ nodup_idents (fd_params fd) = true /\
+    closed_expr (is_self (fd_name fd)) (fd_params fd) (fd_body fd) = true.
+  Proof.
+    intros fd H. unfold closed_fn in H. apply andb_prop in H. destruct H as [H H3]. apply andb_prop in H. destruct H as [H1 H2].
+    repeat split; auto. rewrite forallb_forall in *. intros x Hx. apply H1 in Hx.
+    apply andb_prop in Hx. destruct Hx as [Hx _]. apply andb_prop in Hx. tauto.
+  Qed.
+
+  Lemma apply_closed : forall f, closed_spec f ->
+    forall on d fd st fr cur envd args r st',
+      nth_error defs d = Some fd ->
+      nth_error (st_heap st) fr = Some cur ->
+      (exists pf, nth_error (st_heap st) (if bytes_eqb (fr_key cur) (fd_key fd) then fr else envd) = Some pf) ->
+      forallb (fun p => negb (snd p)) args = true -> cache_ok (st_cache st) ->
+      apply_fn (eval f on defs) on defs st fr (VFun d envd) args = (r, st') ->
+      r_oc r = OFuel \/ done_call fd (map fst args) r st st'.
+  Proof.
+    intros f HS on d fd st fr cur envd args r st' Hd Hcur [pf Hpf] HR HK H.
+    destruct (closed_fn_parts fd (all_closed _ _ Hd)) as [CP [CN CB]].
+    unfold apply_fn in H. rewrite Hd in H.
+    destruct (if on then cache_get (st_cache st) (fd_key fd) args else None) as [[v o]|] eqn:CG.
+    { destruct on; try discriminate. inversion H; subst. right.
+      destruct (cache_get_ok _ _ _ _ _ _ HK Hd CG HR) as [L [NF [k Pk]]].
+      repeat split; simpl; auto.
+      - exists k. unfold call_pure. rewrite L, Nat.eqb_refl. simpl. auto.
+      - exists []. rewrite app_nil_r. auto. }
+    rewrite Hcur, Hpf in H.
+    destruct (negb (length args =? length (fd_params fd))) eqn:AR.
+    { inversion H; subst. right. repeat split; simpl; auto.
+      - exists 0. unfold call_pure. rewrite map_length, AR. auto.
+      - exists []. rewrite app_nil_r. auto. }
+    apply negb_false_iff in AR. apply Nat.eqb_eq in AR.
+    unfold set_heap in H. cbn [st_heap st_cache] in H.
+    rewrite bind_closed in H; auto; [|rewrite map_length; auto].
+    match type of H with context [eval f on defs ?s2 ?n ?b] => destruct (eval f on defs s2 n b) as [rb st3] eqn:EB end.
+    set (newf := with_store _ _) in EB.
+    assert (FO : frame_ok (st_heap st ++ [newf]) (length (st_heap st)) d fd (combine (fd_params fd) (map fst args))).
+    { exists newf, envd. split; [apply nth_error_last|]. unfold newf. simpl. split; [auto|]. split; [auto|].
+      intros x. rewrite find_bind_store; auto. }
+    assert (DO : dom_ok fd (combine (fd_params fd) (map fst args))).
+    { intros x Hx. apply lookup_combine_some; auto. rewrite map_length; auto. }
+    destruct (HS on d fd (mkState (st_heap st ++ [newf]) (st_cache st)) _ _ _ _ _ Hd FO DO CB HK EB) as [F|[[k Pk] [R1 [L1 [M1 [[x1 X1] K1]]]]]].
+    { left. rewrite F in H. inversion H; subst. auto. }
+    cbn [st_heap] in X1.
+    assert (HX : exists extra, st_heap st3 = st_heap st ++ extra) by (exists ([newf] ++ x1); rewrite X1, app_assoc; auto).
+    assert (CP0 : forall kk, call_pure fd kk (map fst args) = peval fd kk (combine (fd_params fd) (map fst args)) (fd_body fd)).
+    { intros. unfold call_pure. rewrite map_length, AR, Nat.eqb_refl. auto. }
+    destruct (r_oc rb) as [v| |] eqn:OB.
+    - rewrite M1 in H. simpl in H.
+      destruct (is_err v) eqn:EV; [inversion H; subst; right; repeat split; simpl; auto; exists k; rewrite CP0, Pk; auto|].
+      destruct (has_function v) eqn:EF; [inversion H; subst; right; repeat split; simpl; auto; exists k; rewrite CP0, Pk; auto|].
+      destruct (key_ok args) eqn:EK; simpl in H; [|inversion H; subst; right; repeat split; simpl; auto; exists k; rewrite CP0, Pk; auto].
+      destruct on; [|inversion H; subst; right; repeat split; simpl; auto; exists k; rewrite CP0, Pk; auto].
+      inversion H; subst. right. repeat split; simpl; auto.
+      + exists k; rewrite CP0, Pk; auto.
+      + apply cache_put_ok; auto. exists d, fd, k. simpl. repeat split; auto;
+          try (rewrite map_length; auto; fail); try (apply key_ok_hashable; auto; fail); try (rewrite Pk; auto; fail).
+    - inversion H; subst. right. repeat split; auto. exists k. rewrite CP0, Pk, OB. auto.
+    - inversion H; subst. auto.
+  Qed.
+
+  Lemma set_heap_same : forall st, set_heap st (st_heap st) = st.
+  Proof. destruct st; auto. Qed.
+  Lemma ext_refl : forall st : state, exists extra, st_heap st = st_heap st ++ extra.
+  Proof. intros. exists []. rewrite app_nil_r. auto. Qed.
+  Lemma ext_trans : forall (a b c : state), (exists x, st_heap b = st_heap a ++ x) -> (exists y, st_heap c = st_heap b ++ y) ->
+    exists z, st_heap c = st_heap a ++ z.
+  Proof. intros a b c [x X] [y Y]. exists (x ++ y). rewrite Y, X, app_assoc. auto. Qed.
+  Lemma frame_ok_ext : forall (a b : state) fr d fd env, (exists x, st_heap b = st_heap a ++ x) ->
+    frame_ok (st_heap a) fr d fd env -> frame_ok (st_heap b) fr d fd env.
+  Proof. intros a b fr d fd env [x X] H. rewrite X. apply frame_ok_app. auto. Qed.
+
+  Theorem closed_all : forall f, closed_spec f.
+  Proof.
+    induction f as [|f IH]; intros on d fd st fr e env r st' Hd HF HD HC HK H.
+    { simpl in H. inversion H; subst. auto. }
+    pose proof (closed_list f IH) as IHL.
+    destruct e; simpl in HC; try discriminate; simpl in H.
+    - (* ELit *) inversion H; subst. right. repeat split; simpl; auto using ext_refl. exists 1. auto.
+    - (* EVar *)
+      destruct (get_param _ _ _ _ _ _ Hd HF HD HC) as [v [L G]]. rewrite G in H. rewrite set_heap_same in H. inversion H; subst.
+      right. repeat split; simpl; auto using ext_refl.
+      exists 1. simpl. rewrite L. auto.
+    - (* ECall *)
+      destruct e; try discriminate.
+      apply andb_prop in HC. destruct HC as [HC CA]. apply andb_prop in HC. destruct HC as [HC CI].
+      apply andb_prop in HC. destruct HC as [CS CP]. apply negb_true_iff in CI. rewrite closed_all_forallb in CA.
+      destruct f as [|f']; [simpl in H; inversion H; subst; auto|].
+      destruct (get_self _ _ _ _ _ _ Hd HF CS CI) as [envd G].
+      assert (EG : eval (S f') on defs st fr (EVar x) = (mkRes (OVal (VFun d envd)) false [] [] [] 0, st))
+        by (simpl; rewrite G, set_heap_same; auto).
+      rewrite EG in H. cbn [r_oc is_err] in H.
+      destruct (eval_list (eval (S f') on defs) st fr args) as [[ra vals] st2] eqn:EL.
+      destruct (IHL _ _ _ _ _ _ _ _ _ _ Hd HF HD CA HK EL) as [F|[[ka Pa] [Ra [La [Ma [Xa [Ka RRa]]]]]]].
+      { rewrite F in H. inversion H; subst. left. simpl. auto. }
+      destruct (r_oc ra) as [av| |] eqn:OA.
+      + destruct (is_err av) eqn:EA.
+        * inversion H; subst. right. repeat split; simpl; auto.
+          exists (S (S ka)). rewrite peval_S. unfold peval_step.
+          rewrite (peval_list_mono_le fd ka (S ka) _ _ _ _ _ Pa) by (try discriminate; lia). rewrite EA. auto.
+        * destruct (apply_fn (eval (S f') on defs) on defs st2 fr (VFun d envd) vals) as [rc st3] eqn:EC.
+          pose proof (frame_ok_ext _ _ _ _ _ _ Xa HF) as HF2.
+          destruct HF2 as [frm [envd' [A [B [C D]]]]].
+          assert (PX : exists pf, nth_error (st_heap st2) (if bytes_eqb (fr_key frm) (fd_key fd) then fr else envd) = Some pf).
+          { rewrite C, bytes_eqb_refl. eauto. }
+          destruct (apply_closed (S f') IH on d fd st2 fr frm envd vals rc st3 Hd A PX Ra Ka EC)
+            as [F|[[kc Pc] [Rc [Lc [Mc [Xc Kc]]]]]].
+          { inversion H; subst. left. simpl. auto. }
+          inversion H; subst.
+          destruct (r_oc rc) as [vc| |] eqn:OC; [| |left; simpl; auto].
+          -- right. repeat split; simpl; auto.
+             ++ exists (S (S (max ka kc))). rewrite peval_S. unfold peval_step.
+                rewrite (peval_list_mono_le fd ka (S (max ka kc)) _ _ _ _ _ Pa) by (try discriminate; lia). rewrite EA.
+                unfold call_pure in Pc. destruct (negb (length (map fst vals) =? length (fd_params fd))).
+                ** injection Pc as Q1 Q2. rewrite <- Q2, app_nil_r, OC, <- Q1. auto.
+                ** rewrite (peval_mono fd kc (S (max ka kc)) _ _ _ _ Pc) by (try discriminate; lia). rewrite OC. auto.
+             ++ rewrite La, Lc. auto.
+             ++ lia.
+             ++ eapply ext_trans; eauto.
+          -- right. repeat split; simpl; auto.
+             ++ exists (S (S (max ka kc))). rewrite peval_S. unfold peval_step.
+                rewrite (peval_list_mono_le fd ka (S (max ka kc)) _ _ _ _ _ Pa) by (try discriminate; lia). rewrite EA.
+                unfold call_pure in Pc. destruct (negb (length (map fst vals) =? length (fd_params fd))).
+                ** discriminate.
+                ** rewrite (peval_mono fd kc (S (max ka kc)) _ _ _ _ Pc) by (try discriminate; lia). rewrite OC. auto.
+             ++ rewrite La, Lc. auto.
+             ++ lia.
+             ++ eapply ext_trans; eauto.
+      + inversion H; subst. right. repeat split; simpl; auto.
+        exists (S (S ka)). rewrite peval_S. unfold peval_step.
+        rewrite (peval_list_mono_le fd ka (S ka) _ _ _ _ _ Pa) by (try discriminate; lia). rewrite OA. auto.
+      + inversion H; subst. left. simpl. auto.
+    - (* EArr *)
+      rewrite closed_all_forallb in HC.
+      destruct (eval_list (eval f on defs) st fr es) as [[ra vals] st2] eqn:EL.
+      destruct (IHL _ _ _ _ _ _ _ _ _ _ Hd HF HD HC HK EL) as [F|[[ka Pa] [Ra [La [Ma [Xa [Ka RRa]]]]]]].
+      { rewrite F in H. inversion H; subst. auto. }
+      destruct (r_oc ra) as [av| |] eqn:OA.
+      + destruct (is_err av) eqn:EA; inversion H; subst; right; repeat split; simpl; auto;
+          exists (S ka); rewrite peval_S; unfold peval_step; rewrite Pa, EA; auto.
+      + inversion H; subst. right. repeat split; simpl; auto.
+        exists (S ka). rewrite peval_S. unfold peval_step. rewrite Pa, OA. auto.
+      + inversion H; subst. rewrite OA. auto.
+    - (* EBin *)
+      apply andb_prop in HC. destruct HC as [C1 C2].
+      destruct (eval f on defs st fr e1) as [r1 st1] eqn:E1.
+      destruct (IH _ _ _ _ _ _ _ _ _ Hd HF HD C1 HK E1) as [F|[[k1 P1] [R1 [L1 [M1 [X1 K1]]]]]].
+      { rewrite F in H. inversion H; subst. auto. }
+      destruct (r_oc r1) as [v1| |] eqn:O1.
+      + destruct (is_err v1) eqn:EV1.
+        * inversion H; subst. right. repeat split; simpl; auto.
+          exists (S k1). rewrite peval_S. unfold peval_step. rewrite P1, EV1. auto.
+        * destruct (eval f on defs st1 fr e2) as [r2 st2] eqn:E2.
+          pose proof (frame_ok_ext _ _ _ _ _ _ X1 HF) as HF1.
+          destruct (IH _ _ _ _ _ _ _ _ _ Hd HF1 HD C2 K1 E2) as [F|[[k2 P2] [R2 [L2 [M2 [X2 K2]]]]]].
+          { rewrite F in H. inversion H; subst. left. simpl. auto. }
+          assert (PP : forall oc2, r_oc r2 = oc2 -> oc2 <> OFuel ->
+                   peval fd (S (max k1 k2)) env (EBin o e1 e2) =
+                   (match oc2 with OVal v2 => if is_err v2 then OVal v2 else bin_op o v1 v2 | _ => oc2 end, r_out r1 ++ r_out r2)).
+          { intros oc2 E NF. rewrite peval_S. unfold peval_step.
+            rewrite (peval_mono fd k1 (max k1 k2) _ _ _ _ P1) by (try discriminate; lia). rewrite EV1.
+            rewrite E in P2. rewrite (peval_mono fd k2 (max k1 k2) _ _ _ _ P2) by (auto; lia).
+            destruct oc2 as [v2| |]; auto. destruct (is_err v2); auto. }
+          destruct (r_oc r2) as [v2| |] eqn:O2.
+          -- destruct (is_err v2) eqn:EV2; inversion H; subst; right; repeat split; simpl; auto;
+               try (rewrite L1, L2; auto; fail); try lia; try (eapply ext_trans; eauto; fail);
+               exists (S (max k1 k2)); rewrite (PP (OVal v2)) by (auto; discriminate); rewrite EV2; auto.
+          -- inversion H; subst. right. repeat split; simpl; auto;
+               try (rewrite L1, L2; auto; fail); try lia; try (eapply ext_trans; eauto; fail).
+             exists (S (max k1 k2)). rewrite (PP OStuck) by (auto; discriminate). rewrite O2. auto.
+          -- inversion H; subst. left. simpl. auto.
+      + inversion H; subst. right. repeat split; simpl; auto.
+        exists (S k1). rewrite peval_S. unfold peval_step. rewrite P1, O1. auto.
+      + inversion H; subst. rewrite O1. auto.
+    - (* EIf *)
+      apply andb_prop in HC. destruct HC as [HC C3]. apply andb_prop in HC. destruct HC as [C1 C2].
+      destruct (eval f on defs st fr e1) as [r1 st1] eqn:E1.
+      destruct (IH _ _ _ _ _ _ _ _ _ Hd HF HD C1 HK E1) as [F|[[k1 P1] [R1 [L1 [M1 [X1 K1]]]]]].
+      { rewrite F in H. inversion H; subst. auto. }
+      destruct (r_oc r1) as [v1| |] eqn:O1.
+      + destruct v1; try (inversion H; subst; right; repeat split; simpl; auto;
+                         exists (S k1); rewrite peval_S; unfold peval_step; rewrite P1; auto; fail).
+        rewrite R1 in H.
+        destruct (eval f on defs st1 fr (if b then e2 else e3)) as [r2 st2] eqn:E2.
+        pose proof (frame_ok_ext _ _ _ _ _ _ X1 HF) as HF1.
+        assert (CB : closed_expr (is_self (fd_name fd)) (fd_params fd) (if b then e2 else e3) = true) by (destruct b; auto).
+        destruct (IH _ _ _ _ _ _ _ _ _ Hd HF1 HD CB K1 E2) as [F|[[k2 P2] [R2 [L2 [M2 [X2 K2]]]]]].
+        { inversion H; subst. left. simpl. auto. }
+        inversion H; subst.
+        destruct (r_oc r2) eqn:O2; [| |left; simpl; auto]; right; repeat split; simpl; auto;
+          try (rewrite L1, L2; auto; fail); try lia; try (eapply ext_trans; eauto; fail);
+          exists (S (max k1 k2)); rewrite peval_S; unfold peval_step;
+          rewrite (peval_mono fd k1 (max k1 k2) _ _ _ _ P1) by (try discriminate; lia);
+          rewrite (peval_mono fd k2 (max k1 k2) _ _ _ _ P2) by (try discriminate; lia); rewrite O2; auto.
+      + inversion H; subst. right. repeat split; simpl; auto.
+        exists (S k1). rewrite peval_S. unfold peval_step. rewrite P1, O1. auto.
+      + inversion H; subst. rewrite O1. auto.
+    - (* ESeq *)
+      apply andb_prop in HC. destruct HC as [C1 C2].
+      destruct (eval f on defs st fr e1) as [r1 st1] eqn:E1.
+      destruct (IH _ _ _ _ _ _ _ _ _ Hd HF HD C1 HK E1) as [F|[[k1 P1] [R1 [L1 [M1 [X1 K1]]]]]].
+      { rewrite F in H. inversion H; subst. auto. }
+      destruct (r_oc r1) as [v1| |] eqn:O1.
+      + destruct (is_err v1) eqn:EV1.
+        * inversion H; subst. right. repeat split; simpl; auto.
+          exists (S k1). rewrite peval_S. unfold peval_step. rewrite P1, EV1, O1. auto.
+        * destruct (eval f on defs st1 fr e2) as [r2 st2] eqn:E2.
+          pose proof (frame_ok_ext _ _ _ _ _ _ X1 HF) as HF1.
+          destruct (IH _ _ _ _ _ _ _ _ _ Hd HF1 HD C2 K1 E2) as [F|[[k2 P2] [R2 [L2 [M2 [X2 K2]]]]]].
+          { inversion H; subst. left. simpl. auto. }
+          inversion H; subst.
+          destruct (r_oc r2) eqn:O2; [| |left; simpl; auto]; right; repeat split; simpl; auto;
+            try (rewrite L1, L2; auto; fail); try lia; try (eapply ext_trans; eauto; fail);
+            exists (S (max k1 k2)); rewrite peval_S; unfold peval_step;
+            rewrite (peval_mono fd k1 (max k1 k2) _ _ _ _ P1) by (try discriminate; lia); rewrite EV1;
+            rewrite (peval_mono fd k2 (max k1 k2) _ _ _ _ P2) by (try discriminate; lia); rewrite O2; auto.
+      + inversion H; subst. right. repeat split; simpl; auto.
+        exists (S k1). rewrite peval_S. unfold peval_step. rewrite P1, O1. auto.
+      + inversion H; subst. rewrite O1. auto.
+    - (* EPrint *)
+      rewrite closed_all_forallb in HC.
+      destruct (eval_list (eval f on defs) st fr es) as [[ra vals] st2] eqn:EL.
+      destruct (IHL _ _ _ _ _ _ _ _ _ _ Hd HF HD HC HK EL) as [F|[[ka Pa] [Ra [La [Ma [Xa [Ka RRa]]]]]]].
+      { rewrite F in H. inversion H; subst. auto. }
+      destruct (r_oc ra) as [av| |] eqn:OA.
+      + destruct (is_err av) eqn:EA.
+        * inversion H; subst. right. repeat split; simpl; auto.
+          exists (S ka). rewrite peval_S. unfold peval_step. rewrite Pa, EA. auto.
+        * rewrite <- (map_map fst print_form) in H.
+          destruct (all_some (map print_form (map fst vals))) as [parts|] eqn:AS; inversion H; subst; right; repeat split; simpl; auto;
+            try (rewrite La; auto; fail); try lia;
+            exists (S ka); rewrite peval_S; unfold peval_step; rewrite Pa, EA, AS; auto.
+      + inversion H; subst. right. repeat split; simpl; auto.
+        exists (S ka). rewrite peval_S. unfold peval_step. rewrite Pa, OA. auto.
+      + inversion H; subst. rewrite OA. auto.
+    - (* EError *) inversion H; subst. right. repeat split; simpl; auto using ext_refl. exists 1. auto.
+  Qed.
 End Closed.
+
+(* ================================================================ function values of a closed session live in the root frame *)
+Fixpoint envs0 (v : value) : bool :=
+  match v with
+  | VFun _ e => Nat.eqb e 0
+  | VArr l => (fix all (l : list value) : bool := match l with [] => true | x :: l' => envs0 x && all l' end) l
+  | _ => true
+  end.
+Lemma envs0_arr : forall l, envs0 (VArr l) = forallb envs0 l.
+Proof. intros. simpl. induction l; simpl; auto; try (rewrite IHl; auto). Qed.
+Lemma has_function_arr : forall l, has_function (VArr l) = existsb has_function l.
+Proof. intros. simpl. induction l; simpl; auto; try (rewrite IHl; auto). Qed.
+Lemma nofun_envs0 : forall v, has_function v = false -> envs0 v = true.
+Proof.
+  induction v using value_ind'; intros HF; try reflexivity; try discriminate.
+  rewrite has_function_arr in HF. rewrite envs0_arr. rewrite forallb_forall. intros x Hx.
+  rewrite Forall_forall in H. apply H; auto.
+  destruct (has_function x) eqn:E; auto. assert (existsb has_function l = true) by (apply existsb_exists; eauto). congruence.
+Qed.
+
+Section PureEnvs.
+  Variable fd : fdef.
+  Hypothesis Hfd : closed_fn fd = true.
+  Let self := is_self (fd_name fd).
+  Let params := fd_params fd.
+
+  Definition env_ok (env : list (ident * value)) : Prop := Forall (fun p => envs0 (snd p) = true) env.
+  Lemma lookup_env_ok : forall env x v, env_ok env -> lookup env x = Some v -> envs0 v = true.
+  Proof.
+    induction env as [|[y w] env IH]; simpl; intros x v H L; try discriminate.
+    inversion H; subst. destruct (bytes_eqb y x); [inversion L; subst; auto | eauto].
+  Qed.
+  Lemma env_ok_combine : forall ps vs, forallb envs0 vs = true -> env_ok (combine ps vs).
+  Proof.
+    induction ps as [|p ps IH]; intros [|v vs] H; simpl; try constructor; simpl in *.
+    - apply andb_prop in H. tauto.
+    - apply IH. apply andb_prop in H. tauto.
+  Qed.
+
+  Definition envs_at (k : nat) : Prop :=
+    forall env e v out, env_ok env -> closed_expr self params e = true -> peval fd k env e = (OVal v, out) -> envs0 v = true.
+
+  Lemma peval_list_envs0 : forall k, envs_at k -> forall es env oc vals out,
+    env_ok env -> forallb (closed_expr self params) es = true ->
+    peval_list (peval fd k) env es = (oc, vals, out) -> forallb envs0 vals = true /\ (forall v, oc = OVal v -> envs0 v = true).
+  Proof.
+    intros k HK. induction es as [|e es IH]; intros env oc vals out HE HC H.
+    - simpl in H. inversion H; subst. split; auto. intros v E. inversion E; auto.
+    - simpl in HC. apply andb_prop in HC. destruct HC as [C1 C2]. cbn [peval_list] in H.
+      destruct (peval fd k env e) as [o1 out1] eqn:E1. destruct o1 as [v1| |].
+      + pose proof (HK _ _ _ _ HE C1 E1) as V1. destruct (is_err v1).
+        * inversion H; subst. split; auto. intros v E. inversion E; subst; auto.
+        * destruct (peval_list (peval fd k) env es) as [[oc2 vs] out2] eqn:E2.
+          destruct (IH _ _ _ _ HE C2 E2) as [A B]. inversion H; subst. split; auto. simpl. rewrite V1, A. auto.
+      + inversion H; subst. split; auto. intros v E. discriminate.
+      + inversion H; subst. split; auto. intros v E. discriminate.
+  Qed.
+
+  Lemma bin_op_envs0 : forall o a b v, bin_op o a b = OVal v -> envs0 v = true.
+  Proof. intros o a b v H. destruct o, a, b; simpl in H; try discriminate; inversion H; auto. Qed.
+
+  Lemma peval_envs0 : forall k, envs_at k.
+  Proof.
+    induction k as [|k IH]; intros env e v out HE HC H; [simpl in H; discriminate|].
+    pose proof (peval_list_envs0 k IH) as IHL.
+    destruct (closed_fn_parts_pure fd Hfd) as [_ [_ CB]].
+    rewrite peval_S in H. unfold peval_step in H.
+    destruct e; simpl in HC; try discriminate.
+    - inversion H; subst. apply nofun_envs0. apply negb_true_iff in HC. auto.
+    - destruct (lookup env x) eqn:L; try discriminate. inversion H; subst. eapply lookup_env_ok; eauto.
+    - destruct e; try discriminate. destruct k as [|k']; try discriminate.
+      apply andb_prop in HC. destruct HC as [_ CA]. rewrite closed_all_forallb in CA.
+      destruct (peval_list (peval fd (S k')) env args) as [[oc vals] out1] eqn:EL.
+      destruct (IHL _ _ _ _ _ HE CA EL) as [A B].
+      destruct oc as [av| |]; try discriminate.
+      destruct (is_err av); [inversion H; subst; auto|].
+      destruct (negb (length vals =? length (fd_params fd))); [inversion H; subst; auto|].
+      destruct (peval fd (S k') (combine (fd_params fd) vals) (fd_body fd)) as [ob outb] eqn:EB.
+      inversion H; subst. eapply IH; [apply env_ok_combine; eauto | exact CB | exact EB].
+    - rewrite closed_all_forallb in HC.
+      destruct (peval_list (peval fd k) env es) as [[oc vals] out1] eqn:EL.
+      destruct (IHL _ _ _ _ _ HE HC EL) as [A B].
+      destruct oc as [av| |]; try discriminate.
+      destruct (is_err av); inversion H; subst; auto.
+    - apply andb_prop in HC. destruct HC as [C1 C2].
+      destruct (peval fd k env e1) as [o1 out1] eqn:E1. destruct o1 as [v1| |]; try discriminate.
+      destruct (is_err v1); [inversion H; subst; eapply IH; eauto|].
+      destruct (peval fd k env e2) as [o2 out2] eqn:E2. destruct o2 as [v2| |]; try discriminate.
+      destruct (is_err v2); [inversion H; subst; eapply IH; eauto|].
+      inversion H; subst. eapply bin_op_envs0; eauto.
+    - apply andb_prop in HC. destruct HC as [HC C3]. apply andb_prop in HC. destruct HC as [C1 C2].
+      destruct (peval fd k env e1) as [o1 out1] eqn:E1. destruct o1 as [v1| |]; try discriminate.
+      destruct v1; try (inversion H; subst; auto; fail).
+      destruct (peval fd k env (if b then e2 else e3)) as [ob outb] eqn:E2.
+      inversion H; subst. eapply IH; [eauto | | exact E2]. destruct b; auto.
+    - apply andb_prop in HC. destruct HC as [C1 C2].
+      destruct (peval fd k env e1) as [o1 out1] eqn:E1. destruct o1 as [v1| |]; try discriminate.
+      destruct (is_err v1) eqn:EV; [inversion H; subst; eapply IH; eauto|].
+      destruct (peval fd k env e2) as [o2 out2] eqn:E2. inversion H; subst. eapply IH; eauto.
+    - rewrite closed_all_forallb in HC.
+      destruct (peval_list (peval fd k) env es) as [[oc vals] out1] eqn:EL.
+      destruct (IHL _ _ _ _ _ HE HC EL) as [A B].
+      destruct oc as [av| |]; try discriminate.
+      destruct (is_err av); [inversion H; subst; auto|].
+      destruct (all_some (map print_form vals)); inversion H; subst; auto.
+    - inversion H; subst; auto.
+  Qed.
+End PureEnvs.
